@@ -3,22 +3,22 @@ import OH.Model.Print
 import OH.Model.ParserWF
 import OH.Driver.Nz
 /-
-Suite `syn.*` (C05, C06, parser part of C04).  Lines (see harness/src/syn.rs):
+Suites `c05`, `c06`, `c04p` (C05, C06, parser part of C04).  Lines (see harness/src/syn.rs):
 
-  syn.parse  <src>             => A <AST> | err <class> | panic:<loc>
-  syn.den    <src> <expected…> => (the same)        expected = `A <AST>` or `X` (any error)
-  syn.rej    <src>             => (the same)        a sentence with one out-of-range field
-  syn.print  <src>             => <AST e> | <enc printed> | <A <AST> | err <class> | panic:…>
-  syn.printn <src>             => (the same for the normal form)
+  c05.parse  <src>             => A <AST> | err <class> | panic:<loc>
+  c05.den    <src> <expected…> => (the same)        expected = `A <AST>` or `X` (any error)
+  c05.rej    <src>             => (the same)        a sentence with one out-of-range field
+  c06.print  <src>             => <AST e> | <enc printed> | <A <AST> | err <class> | panic:…>
+  c06.printn <src>             => (the same for the normal form)
 
 Verdicts, in this order:
  * `fail panic`                 the implementation panicked (parser part of C04; also `parse-panic`,
                                 `norm-panic`, `print-panic`)
  * `fail parser-wf`             a successfully parsed expression is outside `ParserWF` (a field out of
                                 its documented range was accepted: the rejection clause of C05)
- * `fail denotation`            `syn.den`: the parsed expression differs from what the sentence denotes
+ * `fail denotation`            `c05.den`: the parsed expression differs from what the sentence denotes
                                 (or a sentence that must be rejected parses / a valid one is rejected)
- * `fail accepted`              `syn.rej`: a sentence with an out-of-range field parsed
+ * `fail accepted`              `c05.rej`: a sentence with an out-of-range field parsed
  * `fail reparse-error`         C06: the printed form does not parse (`err`/`panic`)
  * `fail reparse-meaning day=d` C06: the reparsed expression is not the expected one AND its day
                                 schedule differs (kinds or comments, after joining comments) on day d
@@ -90,12 +90,12 @@ def handleParse (op : String) (args impl : List String) : Option String :=
       | none => none
       | some e =>
         if !ParserWF e then some s!"fail parser-wf model={ms}"
-        else if op == "syn.rej" then some s!"fail accepted model={ms}"
-        else if op == "syn.den" && joinSp expected != is then some s!"fail denotation expected={joinSp expected} model={ms}"
+        else if op == "c05.rej" then some s!"fail accepted model={ms}"
+        else if op == "c05.den" && joinSp expected != is then some s!"fail denotation expected={joinSp expected} model={ms}"
         else if ms != is then some s!"disagree model={ms}"
         else some s!"ok A:{shapeTag e}"
     | "err" :: _ =>
-      if op == "syn.den" && expected != ["X"] then some s!"fail denotation expected={joinSp expected} model={ms}"
+      if op == "c05.den" && expected != ["X"] then some s!"fail denotation expected={joinSp expected} model={ms}"
       else if ms != is then some s!"disagree model={ms}"
       else some s!"ok {is.replace " " "-"}"
     | _ => none
@@ -145,7 +145,7 @@ def handlePrint (args impl : List String) : Option String :=
     | _ => none
   | _ => none
 
-/-- `syn4.parse`: the parser part of C04 only — a panic is the failure; whether the model predicts a
+/-- `c04.parse`: the parser part of C04 only — a panic is the failure; whether the model predicts a
 panic where the implementation returns (or the converse) is the correspondence -/
 def handleTotal (args impl : List String) : Option String :=
   match args with
@@ -163,9 +163,9 @@ def handleTotal (args impl : List String) : Option String :=
 
 def handle (op : String) (args impl : List String) : Option String :=
   match op with
-  | "syn4.parse" => handleTotal args impl
-  | "syn.parse" | "syn.den" | "syn.rej" => handleParse op args impl
-  | "syn.print" | "syn.printn" => handlePrint args impl
+  | "c04.parse" => handleTotal args impl
+  | "c05.parse" | "c05.den" | "c05.rej" => handleParse op args impl
+  | "c06.print" | "c06.printn" => handlePrint args impl
   | _ => none
 
 end OH.Driver.Syn
